@@ -500,8 +500,16 @@ def task_add_atom(pr, repo):
                 pr.explore(ex, thunk, 'add_atom %s %s %s' % (typ, el, chain))
 
 
+def task_bridge_flag(pr, repo):
+    # the 99.99 exception of the property is keyed on Atom.cysteine_bridge: the flag is set for two sulfur atoms exactly when the
+    # pairwise bond rule holds for them (C11-BX on the real box search and _find_bonds_for_atoms), never for a mere neighbour
+    from . import C11
+    C11.task_boxes_pair(pr, repo, 'S', 'S', False, (0,))
+    C11.task_boxes_pair(pr, repo, 'S', 'C', False, (0,))
+
+
 def run(pr, repo):
-    pr.parallel([(task_total, ()), (task_sequencing, ()), (task_swap, ()), (task_swap_once, ()), (task_average, ()),
+    pr.parallel([(task_bridge_flag, ()), (task_total, ()), (task_sequencing, ()), (task_swap, ()), (task_swap_once, ()), (task_average, ()),
                  (task_render, ()), (task_sections, ()), (average_task, (2,)), (average_twins_task, ()), (write_pka_task, ()), (task_add_atom, ())])
     for f, allowed in WRITERS.items():
         frames.clause(pr, repo, 'writers of .%s are the declared ones' % f, f, 'writers', allowed)
